@@ -67,3 +67,14 @@ Definition run_parse_pdb (lines : list str) : val := vlist vparsed (parse_pdb li
 Definition run_write_pdb (l : list atom_rec) : val := vlist vstr (write_pdb l).
 (* parse (format a) as one value: the round trip inside the model *)
 Definition run_roundtrip_line (a : atom_rec) : val := vlist vparsed (parse_lines (ar_model a) [format_line a]).
+
+(* ---- fitting to PDB limits *)
+From RV Require Import Model.Fit.
+Definition mkfrow (serial : Z) (chain : str) (resseq : Z) (icode : str) (id : nat) : frow :=
+  {| f_serial := serial; f_chain := chain; f_resseq := resseq; f_icode := icode; f_id := id |}.
+Definition run_fit (is_pdb : bool) (t : list frow) : val :=
+  match fit is_pdb t with
+  | Unchanged => VS "unchanged"
+  | Refused => VE "ValueError"
+  | Fitted t' => vlist (fun r => VL [VZ (f_serial r); vstr (f_chain r); VZ (f_resseq r); vstr (f_icode r); vnat (f_id r)]) t'
+  end.
